@@ -30,6 +30,25 @@ CORE_UN = {"neg", "abs", "exp", "sigmoid", "tanh", "log1p", "sqrt", "reciprocal"
 CORE_BIN = {"add", "sub", "mul", "max", "min", "logaddexp", "truediv", "getitem"}
 
 
+def tensor_valued(P):
+    k = P[0]
+    if k == "ten":
+        return True
+    if k in ("num", "var", "slice"):
+        return False
+    if k == "un":
+        return tensor_valued(P[3])
+    if k == "bin":
+        return tensor_valued(P[3]) or tensor_valued(P[4])
+    if k == "red":
+        return tensor_valued(P[2])
+    if k == "sub":
+        return tensor_valued(P[1])
+    if k == "fin":
+        return any(tensor_valued(e) for e in P[3])
+    return k in ("stack", "cat", "lam")
+
+
 def in_core(P, names_used=None):
     """conservative membership test for the documented core fragment (completion clause)"""
     k = P[0]
@@ -38,7 +57,7 @@ def in_core(P, names_used=None):
     if k == "num":
         return True
     if k == "un":
-        if "ten" not in kinds_in(P[3]):
+        if not tensor_valued(P[3]):
             return False  # a bare python number is not a tensor expression
         return P[1] in CORE_UN and in_core(P[3])
     if k == "bin":
@@ -254,7 +273,13 @@ def run_case(P, res, riders, rng, shard):
         after(P, res, riders)
         return
     riders.hold(R)
-    v = compare(R, P, rng, also_bind=2)
+    try:
+        v = compare(R, P, rng, also_bind=2)
+    except Exception as e:  # the oracle must never take the worker down
+        from ..oracle import Verdict
+
+        res.count("harness:oracle-exception:%s" % type(e).__name__)
+        v = Verdict("undecided", "oracle-exception", "%s: %s" % (type(e).__name__, e))
     ks = kinds_in(P)
     nonleaf = [k for k in ks if k not in ("ten", "num", "var")]
     for k in set(nonleaf):
